@@ -258,7 +258,7 @@ pub fn block<'t>(ctx: Context<'t>) -> ParseResult<'t, Vec<Statement>> {
     let mut statements = Vec::new();
     // Parse multiple inner statements until } or EOF
     while !matches!(ctx.token(), T::Else | T::Elif | T::End | T::EOF) {
-        match statement(ctx) {
+        match inner_statement(ctx) {
             Ok((_ctx, stmt)) => {
                 ctx = _ctx; // assign to outer
                 statements.push(stmt);
@@ -429,7 +429,7 @@ pub fn statement<'t>(ctx: Context<'t>) -> ParseResult<'t, Statement> {
             } else {
                 expression(ctx)?
             };
-            let (ctx, body) = statement(ctx)?;
+            let (ctx, body) = inner_statement(ctx)?;
             (ctx.prev(), Loop { condition, body: Box::new(body) })
         }
 
@@ -731,6 +731,29 @@ pub fn statement<'t>(ctx: Context<'t>) -> ParseResult<'t, Statement> {
     comments.append(&mut ctx.comments_since_last_statement());
     let ctx = ctx.push_last_statement_location();
     Ok((ctx, Statement { span, kind, comments }))
+}
+
+/// Parse a statement nested inside a block.
+///
+/// Type declarations, external definitions and imports are only valid as outer
+/// statements - the later compiler passes rely on this.
+pub fn inner_statement<'t>(ctx: Context<'t>) -> ParseResult<'t, Statement> {
+    let (new_ctx, stmt) = statement(ctx)?;
+    use StatementKind::*;
+    match stmt.kind {
+        #[rustfmt::skip]
+        Blob { .. }
+        | Enum { .. }
+        | ExternalDefinition { .. }
+        | Use { .. }
+        | FromUse { .. }
+        => {
+            let err = syntax_error!(ctx, "Only valid as an outer statement");
+            Err((new_ctx, vec![err]))
+        }
+
+        _ => Ok((new_ctx, stmt)),
+    }
 }
 
 /// Parse an outer statement.
